@@ -10,27 +10,8 @@ Property theorems only; helper lemmas live in `Lemmas/TxFault*.lean`, the model 
 namespace CashewsVerif.Props.C16
 open CashewsVerif CashewsVerif.TxFault
 
-/-- the world the body starts in: `__aenter__` has put a fresh `Transaction` into the context variable -/
-def entered (w : FWorld) : FWorld := { w with ctx := some ⟨[]⟩ }
-
 /-- no lock entry carries this transaction's token yet (`_lock_id` is a fresh uuid) -/
 def NoMine (w : FWorld) : Prop := ∀ key e, alLookup w.locks key = some e → e.mine = false
-
-/-- where the block leaves the world: the body's world, then `__aexit__` with `exc_tb` set iff the body raised -/
-theorem runBlock_world (cfg : Cfg) (body : List BodyCmd) (w : FWorld) (h : w.ctx = none) :
-    (runBlock cfg body w).2 =
-      (aexit cfg (!(runBody cfg body (entered w)).1.isOk) (runBody cfg body (entered w)).2).2 := by
-  unfold runBlock entered
-  simp only [h]
-  generalize runBody cfg body { w with ctx := some ⟨[]⟩ } = p
-  obtain ⟨r, w2⟩ := p
-  cases r with
-  | ok a => rfl
-  | err e =>
-    simp only [Res.isOk, Bool.not_false]
-    generalize aexit cfg true w2 = q
-    obtain ⟨r', w3⟩ := q
-    cases r' <;> rfl
 
 /-- **The task is out of the transaction once the block has been left** — whatever failed in the body, in
 commit, in rollback or while unlocking. -/
@@ -149,8 +130,8 @@ theorem fault_never_silent (cfg : Cfg) (body : List BodyCmd) (w : FWorld) (h : w
     ∀ i, w.counter ≤ i → i < (runBlock cfg body w).2.counter → cfg.fails i = false := by
   unfold runBlock at hok ⊢
   simp only [h] at hok ⊢
-  have hb := runBody_Clean cfg body { w with ctx := some ⟨[]⟩ }
-  generalize runBody cfg body { w with ctx := some ⟨[]⟩ } = p at hb hok ⊢
+  have hb := runBody_Clean cfg body (entered w)
+  generalize runBody cfg body (entered w) = p at hb hok ⊢
   obtain ⟨r, w2⟩ := p
   cases r with
   | ok a =>
